@@ -224,6 +224,15 @@ def run_unit(unit, drv, res, seed, tier):
                     texts.append('m.f.%s(%s)' % (name, a))
                     if n and combo[0] == 'x':
                         texts.append('l.%s(%s).%s(%s)' % (name, a, name, a))
+        # the same calls laid out over several lines, every argument starting a line of its own (positions of macro
+        # argument errors are computed from byte offsets by the tree builder)
+        multi = []
+        for t in texts:
+            if '(' in t and len(multi) < 6000:
+                multi.append(t.replace('(', '(\n').replace(', ', ',\n'))
+                multi.append('\n' + t.replace(', ', ',\n  '))
+                multi.append(t.replace('(', '(\r\n').replace(', ', ',\r\n'))
+        texts = texts + multi
         run_texts(res, drv, texts, 'macrocalls')
         res.exhaustive_done['macro-names-x-arity-0-4'] = True
     elif kind == 'paths':
@@ -247,7 +256,9 @@ def run_unit(unit, drv, res, seed, tier):
         # computed by the visitor, not by the ANTLR error listener
         bad_esc = ['\\ud800', '\\udfff', '\\uDBFF', '\\U00110000', '\\UFFFFFFFF', '\\U0000D800', '\\400', '\\777']
         bad_num = ['9223372036854775808', '99999999999999999999999', '18446744073709551616u', '0x8000000000000000',
-                   '0xFFFFFFFFFFFFFFFFFu', '0x1FFFFFFFFFFFFFFFF']
+                   '0xFFFFFFFFFFFFFFFFFu', '0x1FFFFFFFFFFFFFFFF', '-0x8000000000000000', '- 0x8000000000000000', '-9223372036854775808',
+                   '-0x8000000000000001', '-9223372036854775809', '0x7FFFFFFFFFFFFFFF', '-0x7fffffffffffffff', '0xffffffffffffffffu',
+                   '-0x0', '-0', '- 1', '-1u', '-0x1u', '1e400', '-1e400', '0x', '-0x']
         fill = ['', 'a', 'ab', 'abcdefghij', 'é', '日本語', '𝄞𝄞', ' ', '\t', 'x' * 40]
         nl = ['\n', '\n\n', '\r\n', '\n \n']
         texts = []
